@@ -291,6 +291,35 @@ def traced_run(model, time_arg, exact, np_seed, iterations=1, max_steps=MAX_STEP
     return tr
 
 
+def unbounded_adaptive_tau(tr, sim):
+    """True when solve_stochast raised numpy's `lam value too large` out of an ADAPTIVE tau-leap whose step size,
+    computed from the last recorded rate-change statistics by the coded formula (min over the non-zero entries of
+    eps*sum(rates)/|mu| and (eps*sum(rates))^2/sigma2), exceeds 1e15: every propensity's expected change is negligible
+    but not exactly zero (e.g. exp(-gamma*E) for large E), so tau is astronomically large and rate*tau overflows the
+    Poisson sampler.  Recorded defect `C04-unbounded-adaptive-tau`; anything else raising is judged as before."""
+    if tr.error is None or not isinstance(tr.error, ValueError) or "lam value too large" not in str(tr.error):
+        return False
+    if sim.get("mode") != "tau_adaptive" and not (sim.get("mode", "").startswith("tau") and sim.get("pre_tau") is None):
+        return False
+    rates = mu = s2 = None
+    for e in reversed(tr.log):
+        if e[0] != "fn":
+            continue
+        if e[1] == "transitionVar" and s2 is None:
+            s2 = np.asarray(e[4], float).ravel()
+        elif e[1] == "transitionMean" and mu is None:
+            mu = np.asarray(e[4], float).ravel()
+        elif e[1] == "eventRateVector" and rates is None:
+            rates = np.asarray(e[4], float).ravel()
+        if rates is not None and mu is not None and s2 is not None:
+            break
+    if rates is None or mu is None or s2 is None:
+        return False
+    bound = float(sim.get("epsilon", 0.03)) * float(np.sum(rates))
+    cands = [bound / abs(m) for m in mu if m != 0] + [bound * bound / v for v in s2 if v != 0]
+    return bool(cands) and min(cands) > 1e15
+
+
 def segment(log, exact):
     """cut a recorded stream into loop iterations.
     iteration = {"x","t","rates","V","pure","mu","sigma2","pois":[(mean,val)],"expo":[(scale,val)],"retry":bool,
